@@ -436,9 +436,11 @@ def l6_l9(prog, ctx):
         ctx.inconclusive("L7", "scandir filter", sc[0].where, "filter %s" % render(flt))
     nv = sc[0].up()
     nvar = nv.j["decls"][0]["name"] if nv is not None and nv.k == "DeclStmt" else None
-    main = [l for l in f.walk() if l.k == "ForStmt" and not any(x.k == "ForStmt" for x in l.ancestors())]
-    if len(main) != 1:
-        raise Inconclusive("check_conf_dir: loop over the directory not recognised")
+    gate0 = f.calls(GATE)
+    main = [l for l in f.walk() if l.k in ("ForStmt", "WhileStmt", "DoStmt") and not any(x.k in ("ForStmt", "WhileStmt", "DoStmt") for x in l.ancestors())
+            and (not gate0 or any(c9.within(l) for c9 in gate0))]
+    if len(main) != 1 or main[0].k != "ForStmt":
+        raise Inconclusive("check_conf_dir: loop over the directory not recognised (%s)" % (main[0].k if main else "no loop around the per-file read"))
     sh = loops.for_shape(main[0])
     if loops.covers_range(sh, 0, nvar):
         ctx.ok("L7", "the sorted list is walked front to back", main[0].where, sh.describe())
@@ -746,6 +748,7 @@ def l10_mask_exclusions(prog, ctx, rule="L10"):
             continue
         n += 1
         bad = None
+        unknown_flag = None
         for part in parts:
             if any(x is c for x in part.walk()):
                 continue
@@ -761,7 +764,39 @@ def l10_mask_exclusions(prog, ctx, rule="L10"):
                 if equal and not differs:
                     bad = part
             if not okp:
+                # the exclusion kept in a flag: `dot = strcmp(n, ".") == 0 || strcmp(n, "..") == 0; ... if (!dot && strcmp(n, other) == 0)`
+                pt = part.strip()
+                neg = False
+                while pt.k in ("UnaryOperator", "ParenExpr", "ImplicitCastExpr") and pt.children and (pt.k != "UnaryOperator" or pt.j.get("op") == "!"):
+                    if pt.k == "UnaryOperator":
+                        neg = not neg
+                    pt = pt.children[0].strip()
+                if pt.k == "DeclRefExpr" and pt.j.get("dk") == "local":
+                    from sa.dataflow import ReachingDefs as _RDf
+                    g9 = pt.fn if hasattr(pt, "fn") else m
+                    dsf = [d for d in _RDf(g9).defs if d.var == pt.j["name"] and d.rhs is not None]
+                    if len(dsf) == 1:
+                        cs9 = [x for x in dsf[0].rhs.walk() if x.k == "CallExpr"]
+                        if cs9 and all(x.j.get("callee") in ("strcmp", "strcoll") and any(a.string_value() in (".", "..") for a in x.call_args()) for x in cs9):
+                            def _eq0(e):
+                                e2 = e.strip()
+                                return (e2.k == "BinaryOperator" and e2.j.get("op") == "==" and 0 in (e2.children[0].const_value(), e2.children[1].const_value())) or (
+                                    e2.k == "UnaryOperator" and e2.j.get("op") == "!" and e2.children[0].strip().k == "CallExpr")
+                            def _disj(e):
+                                e2 = e.strip()
+                                if e2.k == "BinaryOperator" and e2.j.get("op") == "||":
+                                    return _disj(e2.children[0]) + _disj(e2.children[1])
+                                return [e2]
+                            if neg and all(_eq0(x) for x in _disj(dsf[0].rhs)):
+                                continue            # "is `.` or `..`" negated: the documented exclusion
+                            unknown_flag = part
+                            continue
                 bad = part
+        if bad is None and locals().get("unknown_flag") is not None:
+            ctx.inconclusive(rule, "every name but \".\" and \"..\" takes part in the masking", unknown_flag.where,
+                             "the exclusion `%s` is kept in a flag whose form is not followed" % render(unknown_flag))
+            unknown_flag = None
+            continue
         if bad is not None:
             ctx.fail(rule, "every name but \".\" and \"..\" takes part in the masking", bad.where,
                      "the name comparison is only made when `%s`: files for which that is false are never masked by a later namesake although they are in "
